@@ -251,15 +251,28 @@ def send_session(rng):
 def ns_session(rng):
     from boltons import socketutils as su
     alphabet = [48, 49, 50, 57, 58, 44, 97, 10]     # digits, ':', ',', 'a', newline: payloads that look like framing
-    payloads = [[rng.choice(alphabet) for _ in range(rng.randint(0, rng.choice([3, 3, 12])))] for _ in range(rng.randint(1, 4))]
+    # payload lengths around the points where the size prefix gains a digit; the reader's instance maxsize, setmaxsize()
+    # and the per-call maxsize vary, always admitting the payload (what happens to an over-long message is not stated)
+    payloads = [[rng.choice(alphabet) for _ in range(rng.choice([0, 1, 2, 3, 3, 9, 10, 11, 12, 99, 100, 101, 130]) if rng.random() < 0.5 else rng.randint(0, 3))]
+                for _ in range(rng.randint(1, 4))]
     w = FakeSock(b"", (), [rng.randint(1, 5) for _ in range(rng.randint(0, 6))])
     nsw = su.NetstringSocket(w, timeout=None)
+    inst_max = rng.choice([None, None, 5, 9, 12, 64, 99, 1000])
+    set_max = rng.choice([None, None, None, 9, 99, 150])
+    limits, percall = [], []
+    for p_ in payloads:
+        cur = set_max if set_max is not None else (inst_max if inst_max is not None else su.DEFAULT_MAXSIZE)
+        pc = rng.choice([None, None, 9, 10, 99, 100, 150, 1000, 4096, 100000])
+        if (pc if pc is not None else cur) < len(p_):
+            pc = rng.choice([m for m in (10, 99, 100, 150, 1000, 4096, 100000) if m >= len(p_)])
+        percall.append(pc)
+        limits.append(pc if pc is not None else cur)
     try:
         for p in payloads:
             nsw.write_ns(bytes(p))
         wire = w.wire
     except Exception as ex:
-        return {"kind": "ns", "stream": [], "payloads": payloads, "wire": [-7], "read": [], "after": {"e": "write:" + exc(ex), "v": []}, "ev": []}
+        return {"kind": "ns", "stream": [], "payloads": payloads, "wire": [-7], "read": [], "after": {"e": "write:" + exc(ex), "v": []}, "ev": [], "limits": limits}
     plan = []
     left = len(wire)
     style = rng.choice(["bytewise", "random", "whole"])
@@ -268,12 +281,14 @@ def ns_session(rng):
         plan.append(k)
         left -= k
     r = FakeSock(wire, plan)
-    nsr = su.NetstringSocket(r, timeout=None)
+    nsr = su.NetstringSocket(r, timeout=None) if inst_max is None else su.NetstringSocket(r, timeout=None, maxsize=inst_max)
+    if set_max is not None:
+        nsr.setmaxsize(set_max)
     read = []
     after = {"e": "ok", "v": []}
     try:
-        for _ in payloads:
-            read.append(list(nsr.read_ns()))
+        for pc in percall:
+            read.append(list(nsr.read_ns() if pc is None else nsr.read_ns(maxsize=pc)))
         try:
             nsr.read_ns()
         except su.ConnectionClosed:
@@ -283,7 +298,7 @@ def ns_session(rng):
     except Exception as ex:
         after = {"e": "read:" + exc(ex), "v": []}
     return {"kind": "ns", "stream": [], "payloads": payloads, "wire": list(wire), "read": read, "after": after, "ev": [],
-            "plan": plan}
+            "plan": plan, "limits": limits, "reader_maxsize": [inst_max or 0, set_max or 0, [pc or 0 for pc in percall]]}
 
 
 def exhaustive_sessions(maxlen):
